@@ -2,11 +2,16 @@ package translator
 
 import (
 	"context"
+	"errors"
 	"io"
 	"net/http"
 
 	"github.com/thushan/olla/internal/core/domain"
 )
+
+// ErrRequestTooLarge marks a request whose body is above the translator's size limit, so
+// that handlers can answer 413 rather than a generic 400
+var ErrRequestTooLarge = errors.New("request body too large")
 
 // converts between api formats (e.g., anthropic → openai)
 // lets olla accept multiple formats while using openai internally
